@@ -245,6 +245,9 @@ fn boxes_k<K: Kind>(c: &BoxCase, ctx: &mut Ctx) -> Result<(), Fail> {
     // (a') the range accessors the writer itself consumes (EsriShape::{x,y,z,m}_range) agree with the same fold
     for (i, (s, v)) in shapes.iter().zip(&views_).enumerate() {
         use shapefile::record::EsriShape;
+        if let Err(m) = s.box_getters_agree() {
+            fail!("shape-bbox", "shape {} ({}): {}", i, v.short(), m);
+        }
         let r = match ref_bbox(ty, &v.parts) {
             Some(r) => r,
             None => continue,
